@@ -27,3 +27,38 @@ Theorem C10_legacy_refuted_enable_rule :
   exists ds v, is_masked_legacy ds v = true /\ masked_spec ds v = false.
 Proof. exact legacy_refuted_enable_rule. Qed.
 Print Assumptions C10_legacy_refuted_enable_rule.
+
+(** The README forms parse to the directive they denote, with arbitrary whitespace wherever
+    the code trims ([dd] is "--", [kw a] is "disable=" / "enable="). *)
+From Sq Require Import Noqa.ParseProofs.
+
+Theorem C10_parse_bare : forall w0 w1 line pos,
+  all_ws w0 = true -> all_ws w1 = true ->
+  extract (dd ++ w0 ++ s_noqa ++ w1) line pos = PDir (LineAll line pos).
+Proof. exact parse_bare. Qed.
+Print Assumptions C10_parse_bare.
+
+Theorem C10_parse_line : forall w0 w1 w2 w3 rs line pos,
+  all_ws w0 = true -> all_ws w1 = true -> all_ws w2 = true -> all_ws w3 = true ->
+  rs <> [] -> forallb is_code rs = true ->
+  extract (dd ++ w0 ++ s_noqa ++ (w1 ++ s_colon ++ w2 ++ join [44] rs) ++ w3) line pos
+  = PDir (LineRules line rs).
+Proof. exact parse_line. Qed.
+Print Assumptions C10_parse_line.
+
+Theorem C10_parse_range_rules : forall w0 w1 w2 w3 w4 a xs line pos,
+  all_ws w0 = true -> all_ws w1 = true -> all_ws w2 = true -> all_ws w3 = true -> all_ws w4 = true ->
+  xs <> [] -> forallb piece_ok xs = true ->
+  first_ok (join [44] (map piece xs)) = true -> last_ok (join [44] (map piece xs)) = true ->
+  (forall t b, join [44] (map piece xs) = t ++ [b] -> b <> 47) ->
+  extract (dd ++ w0 ++ s_noqa ++ (w1 ++ s_colon ++ w2 ++ kw a ++ w3 ++ join [44] (map piece xs)) ++ w4) line pos
+  = PDir (RangeRules line pos a (map (fun x => snd (fst x)) xs)).
+Proof. exact parse_range_rules. Qed.
+Print Assumptions C10_parse_range_rules.
+
+Theorem C10_parse_range_all : forall w0 w1 w2 w3 w4 a line pos,
+  all_ws w0 = true -> all_ws w1 = true -> all_ws w2 = true -> all_ws w3 = true -> all_ws w4 = true ->
+  extract (dd ++ w0 ++ s_noqa ++ (w1 ++ s_colon ++ w2 ++ kw a ++ w3 ++ s_all) ++ w4) line pos
+  = PDir (RangeAll line pos a).
+Proof. exact parse_range_all. Qed.
+Print Assumptions C10_parse_range_all.
